@@ -2,6 +2,7 @@ package main
 
 import (
 	"fmt"
+	"strings"
 	"math/rand"
 	"runtime"
 	"sync"
@@ -230,7 +231,7 @@ func c12Iter(rng *Rng, n int) (mismatch, panics, ifaceMismatch int, detail strin
 			} else {
 				mismatch++
 			}
-			if detail == "" {
+			if detail == "" || (strings.Contains(got[i], `"deadlock"`) && !strings.Contains(detail, `"deadlock"`)) {
 				detail = fmt.Sprintf("request %q: solo %s concurrent %s", reqs[i].doc, want[i], got[i])
 			}
 		}
@@ -279,12 +280,19 @@ func init() {
 			o.Emit(Case{Term: N("c12hist"), Obs: N("obs", B(r1 == r2)),
 				Meta: map[string]interface{}{"cold": r1, "afterOtherRequest": r2}, Nontrivial: true})
 		}
+		deadlocks := 0
 		for it := 0; it < iters; it++ {
 			n := 2 + rng.Intn(15)
 			if it%10 == 0 {
 				n = 32 + rng.Intn(33)
 			}
+			if deadlocks >= 2 {
+				break // each further iteration would cost another watchdog period; two are decisive
+			}
 			mm, pn, im, detail, tags := c12Iter(rng, n)
+			if strings.Contains(detail, `"deadlock"`) {
+				deadlocks++
+			}
 			o.Count(fmt.Sprintf("goroutines<=%d", ((n+7)/8)*8))
 			for _, t := range tags {
 				o.stats["req."+t]++
